@@ -63,7 +63,7 @@ func baseAlphabet(keys []int, cfg CacheCfg, rich bool) []string {
 		}
 	}
 	if rich {
-		a = append(a, "cp 1", "load 1 panic", "invall", "all", "keys", "values", "coldest", "hottest", "all1", "coldest1", "hottest1", "mkiter all", "mkiter hottest", "useiter",
+		a = append(a, "cp 1", "load 1 panic", "invall", "allinv", "all", "keys", "values", "coldest", "hottest", "all1", "coldest1", "hottest1", "mkiter all", "mkiter hottest", "useiter",
 			"bulk 1,2 full", "bulk 1,2,1 partial", "bulk 2,3 extra", "bulk 1,3 err", "bulk 1,3 errextra", "bulk 1,2 empty")
 	} else {
 		a = append(a, "all")
